@@ -29,10 +29,19 @@ type ccfg struct {
 	N       int
 	Nest    int // 0: handlers return; 1: handler of request 1 issues a Get; 2: the nested exchange's... second request also nests
 	Preempt int
+	NestOp  string // "" = Get | "ping": the blocking call issued from inside the handler
+	Drop    int    // >0: the connection's request monitor drops request number Drop (it must not stop the ones behind it)
 }
 
 func (c ccfg) String() string {
-	return fmt.Sprintf("%s-conn burst of %d requests queue=%d nesting=%d preempt<=%d", c.T, c.N, c.Q, c.Nest, c.Preempt)
+	x := ""
+	if c.NestOp != "" {
+		x += " nested-call=" + c.NestOp
+	}
+	if c.Drop > 0 {
+		x += fmt.Sprintf(" request-monitor-drops=req%d", c.Drop)
+	}
+	return fmt.Sprintf("%s-conn burst of %d requests queue=%d nesting=%d preempt<=%d%s", c.T, c.N, c.Q, c.Nest, c.Preempt, x)
 }
 
 func connScenario(c ccfg) *mcx.Scenario {
@@ -61,16 +70,27 @@ func connScenario(c ccfg) *mcx.Scenario {
 					handled[p]++
 				}
 				var inject func(m message.Message)
+				injectRaw := func(message.Message) {}
+				var injectBurst func(ms []message.Message)
 				var outs func() []message.Message
+				dropPath := fmt.Sprintf("/req%d", c.Drop)
 				if c.T == "udp" {
 					w := udpw.New(udpw.Opts{NStart: 4, MaxRetransmit: 1, LimitTotal: 8, LimitEndpoint: 8, QueueSize: c.Q,
+						RequestMonitor: func(_ *udpclient.Conn, r *pool.Message) (bool, error) {
+							p, _ := r.Path()
+							return c.Drop > 0 && p == dropPath, nil
+						},
 						Handler: func(_ *responsewriter.ResponseWriter[*udpclient.Conn], r *pool.Message) { body(r) }})
 					doGet = func(path string, tok byte) error {
+						if c.NestOp == "ping" {
+							return w.CC.Ping(context.Background())
+						}
 						req := w.Request(context.Background(), codes.GET, path, message.Token{0xF0, tok}, message.NonConfirmable, nil)
 						_, err := w.CC.Do(req)
 						return err
 					}
 					inject = func(m message.Message) { m.Type, m.MessageID = message.NonConfirmable, w.PeerMID(); _ = w.Inject(m) }
+					injectRaw = func(m message.Message) { _ = w.Inject(m) }
 					outs = func() []message.Message {
 						var ms []message.Message
 						for _, o := range w.NewOuts() {
@@ -80,8 +100,15 @@ func connScenario(c ccfg) *mcx.Scenario {
 					}
 				} else {
 					w := tcpw.New(tcpw.Opts{LimitTotal: 8, LimitEndpoint: 8, QueueSize: c.Q, DisableCSM: true,
+						RequestMonitor: func(_ *tcpclient.Conn, r *pool.Message) (bool, error) {
+							p, _ := r.Path()
+							return c.Drop > 0 && p == dropPath, nil
+						},
 						Handler: func(_ *responsewriter.ResponseWriter[*tcpclient.Conn], r *pool.Message) { body(r) }})
 					doGet = func(path string, tok byte) error {
+						if c.NestOp == "ping" {
+							return w.CC.Ping(context.Background())
+						}
 						req := w.CC.AcquireMessage(context.Background())
 						req.SetCode(codes.GET)
 						req.SetToken(message.Token{0xF0, tok})
@@ -90,11 +117,27 @@ func connScenario(c ccfg) *mcx.Scenario {
 						return err
 					}
 					inject = func(m message.Message) { w.Inject(m) }
+					injectBurst = func(ms []message.Message) {
+						// one TCP segment carrying all frames: one read, one pass over the buffer
+						var seg []byte
+						for _, m := range ms {
+							seg = append(seg, tcpw.Encode(m)...)
+						}
+						w.InjectChunks(seg)
+					}
 					outs = w.NewOuts
 				}
 				// the burst: all requests arrive back to back (the producer blocks only when the queue is full)
+				var burst []message.Message
 				for i := 1; i <= c.N; i++ {
-					inject(message.Message{Code: codes.POST, Token: message.Token{0x30 + byte(i)}, Options: message.Options{{ID: message.URIPath, Value: []byte(fmt.Sprintf("req%d", i))}}})
+					burst = append(burst, message.Message{Code: codes.POST, Token: message.Token{0x30 + byte(i)}, Options: message.Options{{ID: message.URIPath, Value: []byte(fmt.Sprintf("req%d", i))}}})
+				}
+				if c.Drop > 0 && injectBurst != nil {
+					injectBurst(burst)
+				} else {
+					for _, m := range burst {
+						inject(m)
+					}
 				}
 				// the peer answers nested requests as they appear
 				for round := 0; round < 8; round++ {
@@ -103,6 +146,14 @@ func connScenario(c ccfg) *mcx.Scenario {
 					for _, m := range outs() {
 						if m.Code == codes.GET {
 							inject(message.Message{Code: codes.Content, Token: m.Token, Payload: []byte("nested-answer")})
+							acted = true
+						}
+						if m.Code == codes.Ping {
+							inject(message.Message{Code: codes.Pong, Token: m.Token})
+							acted = true
+						}
+						if c.T == "udp" && m.Code == codes.Empty && m.Type == message.Confirmable {
+							injectRaw(message.Message{Type: message.Reset, Code: codes.Empty, MessageID: m.MessageID})
 							acted = true
 						}
 					}
@@ -114,13 +165,24 @@ func connScenario(c ccfg) *mcx.Scenario {
 			return func() (string, []mcx.Finding) {
 				for i := 1; i <= c.N; i++ {
 					p := fmt.Sprintf("/req%d", i)
+					if c.Drop == i {
+						if handled[p] != 0 {
+							fs = append(fs, mcx.Finding{Sig: "conn/dropped-message-handled", What: fmt.Sprintf("%s: %s was dropped by the request monitor and still handled", c, p)})
+						}
+						continue
+					}
 					if handled[p] != 1 && !s.Deadlock {
 						fs = append(fs, mcx.Finding{Sig: "conn/message-not-handled-exactly-once", What: fmt.Sprintf("%s: %s handled %d times; entry order %v", c, p, handled[p], entry)})
 					}
 				}
 				if c.Nest == 0 {
-					for i, p := range entry {
-						if p != fmt.Sprintf("/req%d", i+1) {
+					want := 0
+					for _, p := range entry {
+						want++
+						if want == c.Drop {
+							want++
+						}
+						if p != fmt.Sprintf("/req%d", want) {
 							fs = append(fs, mcx.Finding{Sig: "conn/dispatch-out-of-arrival-order", What: fmt.Sprintf("%s: handlers return without blocking, yet entry order is %v", c, entry)})
 							break
 						}
@@ -139,5 +201,12 @@ func runConn(r *ev.Run, scs *[]*mcx.Scenario) {
 			*scs = append(*scs, connScenario(ccfg{T: t, Q: q, N: 3, Nest: 1, Preempt: ev.Pick(r, 1, 2)}))
 		}
 		*scs = append(*scs, connScenario(ccfg{T: t, Q: 1, N: 3, Nest: 2, Preempt: ev.Pick(r, 0, 1)}))
+		for _, q := range []int{0, 1, 16} {
+			*scs = append(*scs, connScenario(ccfg{T: t, Q: q, N: 3, Nest: 1, NestOp: "ping", Preempt: ev.Pick(r, 1, 2)}))
+		}
+		*scs = append(*scs, connScenario(ccfg{T: t, Q: 1, N: 3, Nest: 2, NestOp: "ping", Preempt: ev.Pick(r, 0, 1)}))
+		for _, d := range []int{1, 2, 4} {
+			*scs = append(*scs, connScenario(ccfg{T: t, Q: 16, N: 4, Nest: 0, Drop: d, Preempt: ev.Pick(r, 0, 1)}))
+		}
 	}
 }
